@@ -219,7 +219,8 @@ class C16(Campaign):
                    "neighbour-definition@op (unrelated class)", "neighbour-definition@op (unrelated class whose state id "
                    "equals a callback name of the victim class)", "neighbour-definition@op (look-alike class: same class / "
                    "method / variable names)", "neighbour-definition@op (subclass adding transitions from inherited states)",
-                   "second instance of the same class interleaved", "neighbour driven between two events"]
+                   "second instance of the same class interleaved", "neighbour driven between two events",
+                   "instances of one class whose listener objects carry different instance-level callbacks"]
     rule = ("one run = 2-4 programs in one process (unrelated, look-alike in another module, subclass extending "
             "inherited states, second instance of the same class) whose define / instantiate / send operations are "
             "interleaved by the PRNG; for every instance the projection of the interleaved trace (operation results, "
@@ -303,6 +304,17 @@ class C16(Campaign):
             for c, v in g2.items():
                 meta = p["cbs"][c.split("/", 1)[1]]
                 gv[meta.get("full") or c] = v
+        # instances of the same class whose LISTENER objects (one class) carry different instance-level
+        # callbacks: what one instance's listener has must not decide what another's is asked for
+        same = [t for t, p_ in zip(insts, programs) if p_ is None] + ["A"]
+        if len(same) >= 2 and base["listeners"]:
+            role = base["listeners"][0]
+            for nm, grp, tag_ in (("on_exit_state", "exit", same[0]), ("after_transition", "after", same[-1]),
+                                  ("on_enter_state", "enter", same[0])):
+                cb_ = f"{role}.{nm}"
+                if cb_ not in base["cbs"] and rnd.random() < 0.6:
+                    base["cbs"][cb_] = {"group": grp, "sig": [gen.P("event"), gen.P("kw", "varkw")],
+                                        "partial": True, "only_for": [tag_]}
         sc = {"profile": "C16", "programs": real, "beh": beh, "gv": gv, "ops": ops, "driver": "sync",
               "perm_seed": rnd.randrange(1 << 30), "kinds": kinds, "insts": insts, "observe_more": True}
         all_sync = not any(m.get("async") for p_ in real for m in p_["cbs"].values())
